@@ -9,7 +9,9 @@ from .program import OUTCOMES, PHRASE
 TAGS = ["a", "b", "c", "wip", "x.y"]
 # tags with a character that behave's tag normalisation for outline rows (Tag.make_name) would
 # drop: used everywhere except ON outlines / inside outline tag placeholders (open point of C06)
-TAGS_X = TAGS + ["p/q", "android"]     # "android": contains the letters of and / or (never an operator)
+# "android": contains the letters of and / or (never an operator); the last one is written with a DECOMPOSED accent
+# (e + U+0301, as files saved on macOS have it): a tag is the sequence of code points written, in files and expressions
+TAGS_X = TAGS + ["p/q", "android", u"cafe\u0301"]
 STEP_KW = ["Given", "When", "Then", "And", "But", "*"]
 
 
